@@ -265,8 +265,23 @@ func scenarioC15(r *Run) {
 	firedBefore := func() int {
 		return sw.Fired["p4-write-fail-transport"] + sw.Fired["p4-write-fail-update"] + sw.Fired["p4-write-response-lost"] + sw.Fired["p4-write-fail-bare-unknown"]
 	}
+	// application filters: none (application id 0), one of its own, or one shared
+	// with the other sessions of the run (one application id, several users)
+	var sharedFlow *FlowSpec
 	est := func(shared bool) *CPSession {
-		s := g.Session(p, SessShape{NQER: 1 + r.Ch.Choose(2, "nq"), TEIDChoose: true})
+		sh := SessShape{NQER: 1 + r.Ch.Choose(2, "nq"), TEIDChoose: true}
+		switch r.Ch.Choose(3, "appfilter") {
+		case 1:
+			sh.BaseSDF = g.Flow(false)
+			r.Probe("session-with-application-filter-of-its-own")
+		case 2:
+			if sharedFlow == nil {
+				sharedFlow = g.Flow(false)
+			}
+			sh.BaseSDF = sharedFlow
+			r.Probe("session-with-shared-application-filter")
+		}
+		s := g.Session(p, sh)
 		if shared {
 			for _, f := range s.FARs {
 				if f.HasOHC {
@@ -328,8 +343,15 @@ func scenarioC15(r *Run) {
 			r.Fault("p4-write-failed-in-deletion")
 		}
 		if !res.Accepted {
-			// the CP gives the session up; the agent may still hold it
-			delete(p.Sessions, s.CPSEID)
+			// the agent has refused to let the session go: it is still live there,
+			// with whatever entries the failed deletion left at the switch, and the
+			// ids those entries carry are still in use. (The control plane's copy of
+			// its FARs is no reference for the peer identity check any more.)
+			if r.faultedMod == nil {
+				r.faultedMod = map[uint64]bool{}
+			}
+			r.faultedMod[s.UPSEID] = true
+			r.Probe("session-kept-live-after-refused-deletion")
 		}
 		r.Op("delete cp=%d -> accepted=%v", s.CPSEID, res.Accepted)
 		checkP4IDs(r, "C15", fmt.Sprintf("after deletion of cp=%d", s.CPSEID))
